@@ -284,6 +284,18 @@ func forcedVar(enc *json.Encoder, scenario int) int {
 		r.writeInit(v, 1001)
 		r.write(v, 2001, false)
 		r.writeInit(v, 3001)
+	case 9: // a writer is held in the middle of its walk over the subscriber list (hook list-range-step of ds.List, first step)
+		// while the FIRST subscriber unsubscribes (it has to wait for the walk); the later subscriber must still get the update
+		u1 := r.subscribeVar(v, 1, nil)
+		r.subscribeVar(v, 2, nil)
+		ds.VerifHook = func(p string) { r.gate.Wait("hook:" + p) }
+		r.gate.Hold("hook:list-range-step")
+		r.spawn(101, func() { r.write(v, 1001, false) })
+		q()
+		r.gate.Free("hook:list-range-step")
+		r.spawn(1, func() { u1() })
+		q()
+		r.gate.ReleaseAll()
 	case 8: // Init arrives while another writer's notification is still being delivered (it has to queue behind it)
 		r.subscribeVar(v, 1, nil)
 		r.subscribeVar(v, 2, nil)
@@ -295,7 +307,7 @@ func forcedVar(enc *json.Encoder, scenario int) int {
 		r.gate.ReleaseAll()
 	}
 	hung := r.wait(5 * time.Second)
-	hive.VerifHook = nil
+	hive.VerifHook, ds.VerifHook = nil, nil
 	r.emit(enc, core.Ev{"hung": core.Seq(hung), "value": v.Get(), "active": r.active(subs), "contents": []any{}})
 	return len(hung)
 }
@@ -647,7 +659,7 @@ func reactObs(args []string) int {
 	enc := json.NewEncoder(w)
 	rng := rand.New(rand.NewSource(*seed))
 	hangs, n := 0, 0
-	for sc := 0; sc < 9; sc++ {
+	for sc := 0; sc < 10; sc++ {
 		hangs += forcedVar(enc, sc)
 		n++
 	}
